@@ -126,7 +126,9 @@ def oracle_key(k, le):
 def key_stream(rng, tier):
     alpha = ['a', 'B', '1', '_', '.', ':', '+', '-', ' ', ',', '\t', '(']
     out = ['', ' ', 'and', 'AND', 'Or', 'with', ' or ', 'and or', 'a  b', ' a\tb ', 'mit\n', 'İ', 'ª', '١', 'a​b',
-           'a b', 'GPL-2.0+', 'c:d', 'x/y', 'a\x1cb', 'or\x85', '　and　']
+           'a b', 'GPL-2.0+', 'c:d', 'x/y', 'a\x1cb', 'or\x85', '　and　',
+           # line breaks inside a key are white space like any other: what follows them is checked too
+           'mit\n/x', 'mit\n(gpl)', 'GPL-2.0\r\n@home', 'a\nb\n"c"', 'mit\n, bsd', 'GPL\n2.0+', ' mit \r\n or-later:x_1 ', 'a\n\nb', 'x\r/y']
     n = 3 if tier == 'thorough' else 2
     for l in range(1, n + 1):
         for t in itertools.product(alpha, repeat=l):
